@@ -46,3 +46,22 @@ Definition upgrade_id (h : list bytes) : field :=
   | v :: _ => match v with [] => None | _ => fst (new_id v) end
   | [] => None
   end.
+
+(* ---- the encoding side of message_fields.go (lines 132-189) ----------------------------------
+   MarshalText: the value, or an error for an unset field ([None]). *)
+Definition marshal_text (f : field) : option bytes := f.
+
+(* Value (driver.Valuer): the value as a string, or nil for an unset field - as the driver value
+   that [scan] is later given (database/sql hands a string back as string or []byte) *)
+Definition field_value (f : field) : scan_src :=
+  match f with Some v => SrcString v | None => SrcNil end.
+Definition field_value_bytes (f : field) : scan_src :=
+  match f with Some v => SrcBytes v | None => SrcNil end.
+
+(* MarshalJSON: json.Marshal of the value - the document [enc] is an input (encoding/json is not
+   modelled) - or the JSON null for an unset field *)
+Definition marshal_json (f : field) (enc : bytes) : bytes :=
+  match f with Some _ => enc | None => json_null end.
+
+(* a field as every construction route produces it (C14): single-line when set *)
+Definition field_wf (f : field) : Prop := forall v, f = Some v -> no_nl v.
